@@ -115,6 +115,16 @@ type StressCfg struct {
 	Carousel bool `json:"carousel,omitempty"`
 	Groups   int  `json:"groups,omitempty"`
 	Gmp      int  `json:"gmp,omitempty"`
+	// ExpiredParent: the group's parent is a context.WithDeadline whose deadline had already passed when it
+	// was created (the group's context reports DeadlineExceeded from the start and for ever; on a correct
+	// Group nothing is ever started). ExpiredEvery n > 0 (carousel): every n-th fresh group is such a group.
+	ExpiredParent bool `json:"expired_parent,omitempty"`
+	ExpiredEvery  int  `json:"expired_every,omitempty"`
+}
+
+// expiredParent returns a context that ended by deadline (not by cancel) before anybody saw it.
+func expiredParent() (context.Context, context.CancelFunc) {
+	return context.WithDeadline(context.Background(), time.Now().Add(-time.Second))
 }
 
 func (c Case) String() string {
@@ -704,6 +714,10 @@ func stressRound(cfg StressCfg) *fail {
 	// the parent context is cancelled when the round is over, so that nothing of an abandoned group (one
 	// whose lock is wedged after a recovered panic) keeps spinning
 	parent, cancelParent := context.WithCancel(context.Background())
+	if cfg.ExpiredParent {
+		cancelParent()
+		parent, cancelParent = expiredParent()
+	}
 	defer cancelParent()
 	g := xsync.NewGroup(parent)
 	var returned atomic.Bool
@@ -816,6 +830,9 @@ func stressRound(cfg StressCfg) *fail {
 		runtime.Gosched()
 	}
 	params := map[string]interface{}{"kind": cfg.Kind, "phase": "real-threads-stress"}
+	if cfg.ExpiredParent {
+		params["parent"] = "deadline-passed"
+	}
 	if n := begunAfter.Load(); n > 0 {
 		params["evidence"] = "f-began-after-return"
 		return &fail{"barrier-run-started-after-stopandwait", params,
@@ -865,6 +882,9 @@ func stressConfigs() []StressCfg {
 		{Doers: 4, Kind: "pot", StopSpin: 1},
 		{Doers: 5, Kind: "do", Pre: 1, PlainStop: true},
 		{Doers: 2, Kind: "trig", Pre: 2, SpinF: 3, StopSpin: 3},
+		// the parent ended by deadline before NewGroup (fix6): nothing may ever start; the flags stay
+		// true-positive-only (a correct Group never calls f here at all)
+		{Doers: 3, Kind: "mix", Pre: 1, ExpiredParent: true},
 	}
 }
 
